@@ -36,9 +36,9 @@ ASSUMPTIONS = ["primitive sets: every primitive has arity >= 1, every terminal a
                "the two parents of a crossover are distinct objects (algorithms.varAnd clones them; cxOnePoint(t, t) "
                "assigns two slices of the same list and can leave an incomplete expression — outside the statement's "
                "'every pair of such trees')",
-               "non-tree parameters of an operator wrapped by staticLimit are passed by keyword, as toolbox.register does "
-               "(staticLimit deep-copies EVERY positional argument into the pool of fall-back parents: candidate finding "
-               "'staticLimit-positional-args')"]
+               "the trees given to an operator wrapped by staticLimit are its leading POSITIONAL arguments (the wrapper keeps "
+               "copies of the first len(result) positional arguments; trees passed by keyword leave that pool empty — out "
+               "of domain); the other parameters may be positional or keywords, both are exercised"]
 MIN_CASES = 2000
 CASE_TIMEOUT = 10
 EXPLANATION = ("Closure theorems for every `.ok` result, and totality theorems (gen_total, cx_total, cxlb_total, mut*_total): on "
@@ -696,21 +696,6 @@ def evaluate(d):
         expect.append(comp + ("1" if msg is None else "0"))
         return Case(d, lines, expect, None, tag="guard/" + d["ps"])
 
-    if k == "slimpos":
-        # candidate finding: non-tree arguments passed positionally land in the pool of fall-back parents
-        tree, _ = make_tree(ps, d["t"], retry=200)
-        maxv = len(tree)
-        dec = gp.staticLimit(key=len, max_value=maxv)(gp.mutInsert)
-        with MyTape(rng=random.Random(d["seed"])) as tp:
-            out = dec(tree, ps.pset)
-        orc = None
-        for o in out:
-            if not isinstance(o, gp.PrimitiveTree):
-                orc = "staticLimit with positional pset returned a %s instead of a tree" % type(o).__name__
-            elif len(o) > maxv:
-                orc = "staticLimit with positional pset returned a tree of %d nodes, limit %d" % (len(o), maxv)
-        return Case(d, [], [], orc, tag="slimpos", nontrivial=True)
-
     # ---- operators ---------------------------------------------------------------------------
     trees, lines, expect = [], [], []
     for g in d["t"]:
@@ -728,21 +713,22 @@ def evaluate(d):
         call = lambda f: f(trees[0], trees[1])
     elif k == "cxlb":
         fn, optoks = gp.cxOnePointLeafBiased, "cxlb %s %s %s" % (btok[0], btok[1], fbits(d["termpb"]))
-        call = lambda f: f(trees[0], trees[1], termpb=d["termpb"])
+        call = (lambda f: f(trees[0], trees[1], d["termpb"])) if d.get("pos") else \
+            (lambda f: f(trees[0], trees[1], termpb=d["termpb"]))
     elif k == "mutu":
         import functools
         expr = functools.partial(GEN[d["emode"]], min_=d["emn"], max_=d["emx"])
         fn, optoks = gp.mutUniform, "mutu %s %s %s %d %d" % (ps.tokens(), btok[0], d["emode"], d["emn"], d["emx"])
-        call = lambda f: f(trees[0], expr=expr, pset=ps.pset)
+        call = (lambda f: f(trees[0], expr, ps.pset)) if d.get("pos") else (lambda f: f(trees[0], expr=expr, pset=ps.pset))
     elif k == "mutn":
         fn, optoks = gp.mutNodeReplacement, "mutn %s %s" % (ps.tokens(), btok[0])
-        call = lambda f: f(trees[0], pset=ps.pset)
+        call = (lambda f: f(trees[0], ps.pset)) if d.get("pos") else (lambda f: f(trees[0], pset=ps.pset))
     elif k == "mute":
         fn, optoks = gp.mutEphemeral, "mute %s %s" % (btok[0], d["mode"])
-        call = lambda f: f(trees[0], mode=d["mode"])
+        call = (lambda f: f(trees[0], d["mode"])) if d.get("pos") else (lambda f: f(trees[0], mode=d["mode"]))
     elif k == "muti":
         fn, optoks = gp.mutInsert, "muti %s %s" % (ps.tokens(), btok[0])
-        call = lambda f: f(trees[0], pset=ps.pset)
+        call = (lambda f: f(trees[0], ps.pset)) if d.get("pos") else (lambda f: f(trees[0], pset=ps.pset))
     elif k == "muts":
         fn, optoks = gp.mutShrink, "muts %s" % btok[0]
         call = lambda f: f(trees[0])
@@ -769,13 +755,22 @@ def evaluate(d):
     if out is None:
         return Case(d, ["C11 %s %s" % (optoks, tape_tok(ps, tp))], ["none"], None, tag="%s/%s/raises" % (k, d["ps"]),
                     nontrivial=False)
+    for o in out:
+        if not isinstance(o, gp.PrimitiveTree):
+            return Case(d, [], [], "%s%s returned a %s instead of a tree" % (k, " under staticLimit" if lim else "",
+                                                                        type(o).__name__), tag=k + "/nontree")
     lines.append("C11 %s %s" % (optoks, tape_tok(ps, tp)))
     expect.append("%s 0" % " ".join(ps.nodes_tok(o) for o in out))
     # ---- oracle: the statement ----
     orc = None
     if len(out) != len(trees):
         orc = "operator returned %d trees for %d" % (len(out), len(trees))
+    for o in out:
+        if not isinstance(o, gp.PrimitiveTree) and orc is None:
+            orc = "%s returned a %s instead of a tree" % (k, type(o).__name__)
     for o, s, b in zip(out, slots, before):
+        if orc is not None:
+            break
         msg = well_formed(o, s)
         if msg and orc is None:
             orc = "%s output: %s" % (k, msg)
@@ -799,7 +794,7 @@ def evaluate(d):
         l2, e2, orc = observe_lines(ps, out[0], limit=12, rnd=random.Random(d["seed"]))
         lines += l2
         expect += e2
-    tag = "%s%s/%s/%s" % (k, "+lim" if lim else "", d["ps"], "changed" if changed else "same")
+    tag = "%s%s%s/%s/%s" % (k, "+lim" if lim else "", "+pos" if d.get("pos") else "", d["ps"], "changed" if changed else "same")
     if k == "mutu":
         tag += "/" + d["emode"]
     return Case(d, lines, expect, orc, tag=tag, nontrivial=changed)
@@ -848,6 +843,8 @@ def op_desc(rng, ps, k):
         d["emn"] = rng.randint(0, d["emx"])
     if k == "mute":
         d["mode"] = rng.choice(["one", "all"])
+    # the non-tree parameters (termpb, expr, pset, mode) positionally or by keyword
+    d["pos"] = rng.random() < 0.5
     return d
 
 
@@ -878,10 +875,6 @@ def generate(tier, rng, mult):
                             if mode != "grow" and mx >= 5:
                                 d["observe"] = False
                             yield d
-    if posargs_known():
-        for _ in range(100):
-            ps = get_ps("loose1")
-            yield {"k": "slimpos", "ps": "loose1", "t": rand_tree_desc(rng, ps), "seed": rng.randrange(1 << 30)}
     # staticLimit on the height with a tight limit: both parents exactly at the limit
     for _ in range((20000 if thorough else 2000) * mult):
         ps = get_ps(rng.choice(PSNAMES))
@@ -950,20 +943,5 @@ def shrink(d):
             yield e
 
 
-POSARGS_KEY = "staticLimit-positional-args"
-
-
-def posargs_known(known=None):
-    if known is None:
-        import lib
-        known = lib.load_known("C11")
-    for k in known:
-        if POSARGS_KEY in (k.get("key", "") + " " + k.get("what", "")):
-            return k.get("id")
-    return None
-
-
 def classify(desc, msg, known):
-    if isinstance(desc, dict) and desc.get("k") == "slimpos" and msg.startswith("staticLimit with positional"):
-        return posargs_known(known)
     return None
